@@ -22,7 +22,11 @@ The combinator observes nothing of a step but "returned nil / returned an error"
 table model `txn` takes the step outcomes as data; `txnM` is the same combinator over arbitrary
 state-passing step bodies and `txnM_eq_table` (Eru/TxnProofs.lean) lifts every table theorem.
 
-Trusted/assumed: `ttl` does not expire during the call (the harness uses a large ttl);
+`ttl`: every context `Txn` creates gets its own `WithTimeout(·, ttl)`, counted from the moment it is
+created: the step context at the top, the cancellation-immune context of `then` (when there is no
+rollback) right before `then`, the rollback context right before the rollback.  `Slow` says which
+step (if any) runs longer than `ttl`; a context created after that step starts with a fresh budget.
+Trusted/assumed: the other steps take negligible time compared with `ttl`;
 a context derived from `context.TODO()` is never cancelled by the caller's `cancel()`;
 a context derived from the caller's context reports `ctx.Err() != nil` from the moment the
 caller cancelled.  Both are checked by the correspondence harness (closures record `ctx.Err()`).
@@ -65,6 +69,23 @@ def Cancel.rank : Cancel → Nat
 def entryRank : Step → Nat | .cond => 1 | .thn => 5 | .rollback => 9
 def exitRank : Step → Nat | .cond => 3 | .thn => 7 | .rollback => 11
 
+/-- which step (at most one) runs for longer than `ttl` -/
+inductive Slow where
+  | none | cond | thn | rollback
+  deriving Repr, DecidableEq, Inhabited
+
+def Slow.all : List Slow := [.none, .cond, .thn, .rollback]
+
+/-- the moment (on the time line of `Cancel.rank`) at which `ttl` has elapsed inside the slow step -/
+def Slow.moment : Slow → Option Nat
+  | .none => Option.none | .cond => some 2 | .thn => some 6 | .rollback => some 10
+
+/-- a context created at time `birth` with a `ttl` timeout reports `DeadlineExceeded` at time `t` -/
+def expiredAt (birth : Nat) (sl : Slow) (t : Nat) : Bool :=
+  match sl.moment with
+  | Option.none => false
+  | some e => decide (birth < e) && decide (e < t)
+
 /-- which context a step receives -/
 inductive Ctx where
   | txn      -- derived from the caller's context: follows the caller's cancellation
@@ -97,18 +118,33 @@ structure Result where
   panicked : Bool := false
   deriving Repr, DecidableEq, Inhabited
 
-def mkCall (s : Step) (k : Ctx) (c : Cancel) (flag : Option Bool) : Call :=
-  { step := s, ctx := k, cancelledAtEntry := k.cancelledAt c (entryRank s),
-    cancelledAtExit := k.cancelledAt c (exitRank s), byCond := flag }
+/-- when the context a step receives was created: the step context at the very start, an `inherit`
+context right before the step it is made for -/
+def birthOf (k : Ctx) (s : Step) : Nat :=
+  match k with
+  | .txn => 0
+  | .inherit => entryRank s
+
+/-- what a body can learn from its context: "does `ctx.Err()` report an error at time `t`?" -/
+abbrev View := Nat → Bool
+
+/-- the view the context of kind `k` handed to step `s` offers when the caller cancels at `c` and step
+`sl` overruns `ttl`: cancelled by the caller (only `txn` contexts) or past its own deadline -/
+def view (k : Ctx) (s : Step) (c : Cancel) (sl : Slow) : View :=
+  fun t => k.cancelledAt c t || expiredAt (birthOf k s) sl t
+
+def mkCall (s : Step) (k : Ctx) (c : Cancel) (sl : Slow) (flag : Option Bool) : Call :=
+  { step := s, ctx := k, cancelledAtEntry := view k s c sl (entryRank s),
+    cancelledAtExit := view k s c sl (exitRank s), byCond := flag }
 
 /-- `utils.Txn` as a function of the step outcomes and the cancellation point -/
-def txn (cond : Out) (thn rb : Opt) (c : Cancel) : Result :=
-  let c1 := [mkCall .cond .txn c none]
+def txn (cond : Out) (thn rb : Opt) (c : Cancel) (sl : Slow := .none) : Result :=
+  let c1 := [mkCall .cond .txn c sl none]
   -- body: cond, then `then` when cond succeeded and then != nil
   let thenCtx : Ctx := if rb = .absent then .inherit else .txn
   let (c2, thenFailed) : List Call × Bool :=
     match cond, thn with
-    | .ok, .present o => ([mkCall .thn thenCtx c none], o == .fail)
+    | .ok, .present o => ([mkCall .thn thenCtx c sl none], o == .fail)
     | _, _ => ([], false)
   -- deferred rollback
   let ret : Ret := if cond = .fail then .condErr else if thenFailed then .thenErr else .nil
@@ -116,14 +152,14 @@ def txn (cond : Out) (thn rb : Opt) (c : Cancel) : Result :=
     if ret = .nil then [] else
     match rb with
     | .absent => []
-    | .present _ => [mkCall .rollback .inherit c (some (cond == .fail))]
+    | .present _ => [mkCall .rollback .inherit c sl (some (cond == .fail))]
   { calls := c1 ++ c2 ++ c3, ret := ret }
 
 /-- `utils.PCR`: `Txn(prepare, commit, wrapper)` where the wrapper calls the user's rollback only
 when `failureByCond` is false.  The observed calls are the user's closures; a `nil` rollback is a
 nil-function call inside the wrapper (panic) when commit fails. -/
-def pcr (prepare : Out) (commit rb : Opt) (c : Cancel) : Result :=
-  let r := txn prepare commit (.present .ok) c   -- the wrapper is never nil
+def pcr (prepare : Out) (commit rb : Opt) (c : Cancel) (sl : Slow := .none) : Result :=
+  let r := txn prepare commit (.present .ok) c sl   -- the wrapper is never nil
   let userCalls := r.calls.filter fun k => !(k.step == .rollback && k.byCond == some true)
   let wrapperRunsUser := r.calls.any fun k => k.step == .rollback && k.byCond == some false
   if wrapperRunsUser && rb == .absent then
@@ -134,12 +170,6 @@ def pcr (prepare : Out) (commit rb : Opt) (c : Cancel) : Result :=
 
 /-! ### the same combinator over arbitrary step bodies -/
 
-/-- what a body can learn from its context: "is it cancelled at time `t`?" -/
-abbrev View := Nat → Bool
-
-/-- the view a context of kind `k` offers when the caller cancels at `c` -/
-def view (k : Ctx) (c : Cancel) : View := fun t => k.cancelledAt c t
-
 /-- a step body: receives its context (kind + what it can observe of it), transforms the world `σ`,
 returns nil (`true`) or an error -/
 abbrev Body (σ : Type) := Ctx → View → σ → Bool × σ
@@ -147,30 +177,31 @@ abbrev Body (σ : Type) := Ctx → View → σ → Bool × σ
 /-- one invocation of a body: which step, with which context, with which `failureByCond` flag -/
 abbrev Inv := Step × Ctx × Option Bool
 
-/-- `utils.Txn` over arbitrary bodies (`true` = returned nil) when the caller cancels at `c`.
+/-- `utils.Txn` over arbitrary bodies (`true` = returned nil) when the caller cancels at `c` and step `sl`
+overruns `ttl`.
 Returns which error is returned, the invocations made (in order) and the final world. -/
-def txnM {σ : Type} (cond : Body σ) (thn : Option (Body σ)) (rb : Option (Bool → Body σ)) (c : Cancel) (s : σ) :
+def txnM {σ : Type} (cond : Body σ) (thn : Option (Body σ)) (rb : Option (Bool → Body σ)) (c : Cancel) (sl : Slow) (s : σ) :
     Ret × List Inv × σ :=
-  let (condOk, s1) := cond .txn (view .txn c) s
+  let (condOk, s1) := cond .txn (view .txn .cond c sl) s
   let thenCtx : Ctx := if rb.isNone then .inherit else .txn
   let (thenFailed, tr2, s2) : Bool × List Inv × σ :=
     match condOk, thn with
-    | true, some f => let (ok, s') := f thenCtx (view thenCtx c) s1; (!ok, [(.thn, thenCtx, none)], s')
+    | true, some f => let (ok, s') := f thenCtx (view thenCtx .thn c sl) s1; (!ok, [(.thn, thenCtx, none)], s')
     | _, _ => (false, [], s1)
   let ret : Ret := if !condOk then .condErr else if thenFailed then .thenErr else .nil
   let tr := (Step.cond, Ctx.txn, none) :: tr2
   if ret = .nil then (ret, tr, s2) else
   match rb with
   | none => (ret, tr, s2)
-  | some f => (ret, tr ++ [(.rollback, .inherit, some (!condOk))], (f (!condOk) .inherit (view .inherit c) s2).2)
+  | some f => (ret, tr ++ [(.rollback, .inherit, some (!condOk))], (f (!condOk) .inherit (view .inherit .rollback c sl) s2).2)
 
 /-- the effect on the world of the body an invocation names -/
-def applyInv {σ : Type} (cond : Body σ) (thn : Option (Body σ)) (rb : Option (Bool → Body σ)) (c : Cancel)
+def applyInv {σ : Type} (cond : Body σ) (thn : Option (Body σ)) (rb : Option (Bool → Body σ)) (c : Cancel) (sl : Slow)
     (s : σ) (i : Inv) : σ :=
   match i with
-  | (.cond, k, _) => (cond k (view k c) s).2
-  | (.thn, k, _) => match thn with | some f => (f k (view k c) s).2 | none => s
-  | (.rollback, k, some b) => match rb with | some f => (f b k (view k c) s).2 | none => s
+  | (.cond, k, _) => (cond k (view k .cond c sl) s).2
+  | (.thn, k, _) => match thn with | some f => (f k (view k .thn c sl) s).2 | none => s
+  | (.rollback, k, some b) => match rb with | some f => (f b k (view k .rollback c sl) s).2 | none => s
   | (.rollback, _, none) => s
 
 end Eru.Txn
